@@ -24,3 +24,25 @@ pub axiom fn ax_fn_items()
     ensures
         forall|a: f64, b: f64, r: f64| #[trigger] f64::max.ensures((a, b), r) == (r == fmaxf(a, b)),
         forall|a: f64, b: f64, r: f64| #[trigger] f64::min.ensures((a, b), r) == (r == fminf(a, b));
+// Iterator::sum over &f64 items: the left fold of `+` starting from the additive identity the
+// standard library uses (an unspecified zero constant here; its real value is 0)
+pub uninterp spec fn fsum_init() -> f64;
+pub open spec fn fsum_ref(s: Seq<&f64>, k: int) -> f64 decreases k {
+    if k <= 0 { fsum_init() } else { fadd(fsum_ref(s, k - 1), *s[k - 1]) }
+}
+pub open spec fn fsum(s: Seq<f64>, k: int) -> f64 decreases k {
+    if k <= 0 { fsum_init() } else { fadd(fsum(s, k - 1), s[k - 1]) }
+}
+#[verifier::external_body]
+pub fn __sum<'a, I: Iterator<Item = &'a f64>>(it: I) -> (r: f64)
+    requires it.obeys_prophetic_iter_laws(),
+    ensures r == fsum_ref(it.remaining(), it.remaining().len() as int),
+{ unimplemented!() }
+// summing references to the elements of a sequence is summing the sequence (fires automatically)
+pub broadcast proof fn lemma_fsum_ref_is_fsum(rem: Seq<&f64>, s: Seq<f64>, k: int)
+    requires 0 <= k <= rem.len(), k <= s.len(), forall|i: int| 0 <= i < k ==> *rem[i] == s[i],
+    ensures #![trigger fsum_ref(rem, k), fsum(s, k)] fsum_ref(rem, k) == fsum(s, k),
+    decreases k
+{
+    if k > 0 { lemma_fsum_ref_is_fsum(rem, s, k - 1); }
+}
